@@ -1,27 +1,47 @@
-"""Apply each kept change of /verif/seeded to /repo, run the quick check of its property, undo it.
-usage: python3-vt tools/eval_seeded.py [ids...]"""
-import json, os, subprocess, sys, time
+"""Run the quick check of each kept seeded change against a scratch copy of /repo with the change applied
+(VERIF_REPO=<copy>, VERIF_OUT=<scratch>: nothing is written to /repo, /verif/evidence or /verif/replay).
+usage: python3-vt tools/eval_seeded.py [-j N] [ids...]"""
+import json, os, shutil, subprocess, sys, time
+from concurrent.futures import ThreadPoolExecutor
 ROOT = os.path.dirname(os.path.dirname(os.path.abspath(__file__)))
-ids = sys.argv[1:] or sorted(os.listdir(os.path.join(ROOT, "seeded")))
-for i in ids:
+args = sys.argv[1:]
+jobs = 4
+if "-j" in args:
+    jobs = int(args[args.index("-j") + 1]); del args[args.index("-j"):args.index("-j") + 2]
+ids = args or sorted(os.listdir(os.path.join(ROOT, "seeded")))
+
+
+def run(i):
     d = os.path.join(ROOT, "seeded", i)
     meta = json.load(open(os.path.join(d, "meta.json")))
     props = meta.get("check_properties") or [meta["property"]]
-    subprocess.run(["git", "-C", "/repo", "checkout", "--", "."], check=True)
-    r = subprocess.run(["git", "-C", "/repo", "apply", os.path.join(d, "patch.diff")])
+    scratch = "/tmp/evs/%s" % i
+    shutil.rmtree(scratch, ignore_errors=True)
+    os.makedirs(scratch)
+    repo = os.path.join(scratch, "repo")
+    subprocess.run(["git", "clone", "-q", "/repo", repo], check=True)
+    r = subprocess.run(["git", "-C", repo, "apply", os.path.join(d, "patch.diff")], capture_output=True, text=True)
     if r.returncode != 0:
-        print(i, "PATCH DOES NOT APPLY"); continue
+        shutil.rmtree(scratch, ignore_errors=True)
+        return i, "PATCH DOES NOT APPLY: " + r.stderr[:200]
+    out, lines = {}, []
     try:
-        out = {}
         for p in props:
             t0 = time.time()
-            pr = subprocess.run(["python3-vt", "-m", "pyvc.check", "--property", p, "--tier", "quick"], cwd=ROOT, capture_output=True, text=True)
-            viol = [l for l in pr.stdout.splitlines() if l.startswith("violated obligation") or l.startswith("VIOLATION")]
-            out[p] = dict(rc=pr.returncode, seconds=round(time.time() - t0, 1), violated=[l for l in viol if l.startswith("violated")][:6])
-            print(i, p, "rc=%d" % pr.returncode, "%.0fs" % (time.time() - t0), "; ".join(v.replace("violated obligation: ", "") for v in out[p]["violated"][:4]))
+            env = dict(os.environ, VERIF_REPO=repo, VERIF_OUT=os.path.join(scratch, "out"))
+            pr = subprocess.run(["python3-vt", "-m", "pyvc.check", "--property", p, "--tier", "quick"], cwd=ROOT, capture_output=True, text=True, env=env)
+            viol = [l.replace("violated obligation: ", "") for l in pr.stdout.splitlines() if l.startswith("violated obligation")]
+            out[p] = dict(rc=pr.returncode, seconds=round(time.time() - t0, 1), violated=sorted(set(viol))[:6])
+            lines.append("%s %s rc=%d %.0fs %s" % (i, p, pr.returncode, time.time() - t0, "; ".join(sorted(set(viol))[:4])))
             if pr.returncode not in (0, 1):
-                print(pr.stdout[-1500:], pr.stderr[-1500:])
-        meta["detected_by"] = {p: v for p, v in out.items()}
+                lines.append(pr.stdout[-800:] + pr.stderr[-800:])
+        meta["detected_by"] = out
         json.dump(meta, open(os.path.join(d, "meta.json"), "w"), indent=1)
     finally:
-        subprocess.run(["git", "-C", "/repo", "checkout", "--", "."], check=True)
+        shutil.rmtree(scratch, ignore_errors=True)
+    return i, "\n".join(lines)
+
+
+with ThreadPoolExecutor(jobs) as ex:
+    for i, text in ex.map(run, ids):
+        print(text, flush=True)
